@@ -78,6 +78,7 @@ inductive EKind | insert | delete | replace | swap
   deriving DecidableEq, Repr
 
 def EKind.toNat : EKind → Nat | .insert => 0 | .delete => 1 | .replace => 2 | .swap => 3
+def EKind.ofNat? : Nat → Option EKind | 0 => some .insert | 1 => some .delete | 2 => some .replace | 3 => some .swap | _ => none
 
 /-- backtrace of `operations`; collects in reverse (the Rust code pushes and reverses at the end).
 `none` = the `panic!("should not happen")` branch / an index underflow. -/
@@ -107,5 +108,24 @@ def applyScript (a b : List (List Nat)) : List (EKind × Nat × Nat) → Nat →
     | .delete => copied ++ applyScript a b rest (i + 1)
     | .replace => copied ++ b.getD j [] :: applyScript a b rest (i + 1)
     | .swap => copied ++ a.getD (i+1) [] :: a.getD i [] :: applyScript a b rest (i + 2)
+
+/-- non-decreasing in both positions -/
+def scriptSorted : List (EKind × Nat × Nat) → Bool
+  | [] => true
+  | [_] => true
+  | p :: q :: rest => p.2.1 ≤ q.2.1 && p.2.2 ≤ q.2.2 && scriptSorted (q :: rest)
+
+/-- every operation refers to existing characters and respects the flags -/
+def opOk (fl : EFlags) (a b : List (List Nat)) (p : EKind × Nat × Nat) : Bool :=
+  match p.1 with
+  | .insert => p.2.2 < b.length && p.2.1 ≤ a.length
+  | .delete => p.2.1 < a.length
+  | .replace => p.2.1 < a.length && p.2.2 < b.length && canReplace fl (a.getD p.2.1 []) (b.getD p.2.2 [])
+  | .swap => fl.swap && p.2.1 + 1 < a.length && canReplace fl (a.getD p.2.1 []) (a.getD (p.2.1 + 1) [])
+
+/-- is `ops` an answer `operations(a, b)` may give?  (The property asks for a script sorted by position whose
+application to `a` yields `b` and whose length is the distance; among several optimal scripts it fixes none.) -/
+def scriptAccept (fl : EFlags) (a b : List (List Nat)) (ops : List (EKind × Nat × Nat)) : Bool :=
+  ops.length == editDistance fl a b && scriptSorted ops && ops.all (opOk fl a b) && applyScript a b ops 0 == b
 
 end Tu
